@@ -58,6 +58,13 @@ def enum_pairs(tier):
                 hrp = ["bc", "tb", "bcrt", "1x1", "~", "test1", "b", "ltc"][r % 8]
                 yield {"hrp": hrp, "ver": ver, "n": n, "a": (r * 83 + ver * 7 + n) & 0xFF,
                        "b": [0, 1, 37, 255, 3, 5, 7, 11][r % 8]}
+    # the 90-character limit from both sides, for every legal program length: total = len(hrp) + 1 + 1 + ceil(8n/5) + 6
+    for ver, lens in ((0, (20, 32)), (1, tuple(range(2, 41))), (16, (2, 20, 32, 40))):
+        for n in lens:
+            body = 1 + 1 + (8 * n + 4) // 5 + 6
+            for total in (89, 90, 91, 92):
+                if total - body >= 1:
+                    yield {"hrp": ("bc" + "x" * 90)[: total - body], "ver": ver, "n": n, "a": n, "b": 7}
 
 
 def gen_pairs(tier):
@@ -285,6 +292,16 @@ def check_reject(case, ctx):
         if norm != want:
             raise Violation("C11/decode/rejected-valid[%s]" % case["kind"],
                             "decode(%r, %r) = %r, expected (%d, %s)" % (dhrp, s, got, want[0], want[1].hex()))
+    # the address helper built on top of the decoder (it takes the expected prefix from the first two characters): it may
+    # refuse more, but it must never hand out a program for a string BIP173/350 reject under that two-letter prefix
+    if hasattr(H, "bech32_decode_address") and len(s) >= 2:
+        st_h, prog_h = call(H.bech32_decode_address, s)
+        if st_h == "ok" and prog_h is not None:
+            ok_l = R.segwit_decode(s[:2].lower(), s) if s[:2].lower() in ("bc", "tb") else R.segwit_decode(s[:2], s)
+            if ok_l is None or bytes(prog_h) != ok_l[1]:
+                raise Violation("C11/helper/accepted-invalid[%s]" % case["kind"], "bech32_decode_address(%r) = %s although BIP173/350 "
+                                "reject the string (%s)" % (s, bytes(prog_h).hex(), case["kind"]))
+        ctx.count("helper-route:" + ("returned" if st_h == "ok" and prog_h is not None else "refused"))
     # the checksum verifier on its own: only the two constants are recognised
     raw = R.decode_raw(s) if all(33 <= ord(c) <= 126 for c in s) else None
     if raw is not None:
